@@ -2,7 +2,7 @@
    exact members, ties, lazy = eager, the boolean specification. *)
 From Coq Require Import ZArith List Bool Arith Lia Permutation Sorted.
 Import ListNotations.
-From SCMO Require Import Lib.Val Model.C03 Proofs.C03 Proofs.C03_b.
+From SCMO Require Import Lib.Val Lib.PyInt Gen.GenBarcode Model.C03 Proofs.C03 Proofs.C03_b.
 
 Definition whitelisted (lines : list (str * Z)) (b : str) : Prop := In b (map fst lines).
 
@@ -109,7 +109,7 @@ Theorem assign_iff lines k t q :
 Proof.
   intros He Hwf Hq i0 b0 d0. apply in_alphabet_Forall in Hq.
   destruct (expand_char lines k) as (t' & He' & Hb & Hx). rewrite He in He'. inversion He'; subst t'.
-  unfold lookup. rewrite Hb, load_get.
+  rewrite !lookup_unfold. rewrite Hb, load_get.
   destruct (index_of lines q) as [i|] eqn:Ei.
   - (* exact member *)
     assert (Hw : whitelisted lines q).
@@ -134,7 +134,7 @@ Proof. destruct (expand_char lines k) as (t & H1 & H2 & _). eauto. Qed.
 Lemma expand_zero_lookup lines t : expand 0 (load lines) = Ok t -> forall q, lookup t q = lookup (load lines) q.
 Proof.
   intros He q. destruct (expand_char lines 0) as (t' & He' & Hb & Hx). rewrite He in He'. inversion He'; subst t'.
-  unfold lookup. rewrite Hb. destruct (dget q (bcs (load lines))); [reflexivity|].
+  rewrite !lookup_unfold. rewrite Hb. destruct (dget q (bcs (load lines))); [reflexivity|].
   rewrite Hx. unfold ext_after.
   destruct (dget q (space_of (items_of 0 (keys (bcs (load lines)))) [])) as [l|] eqn:Eg; [|reflexivity].
   apply dget_some_in in Eg. apply space_of_entry in Eg. destruct Eg as [-> Hne].
@@ -177,7 +177,7 @@ Proof.
   rewrite He in H1. inversion H1; subst te. rewrite H3.
   destruct (expand_char lines k) as (t' & He' & Hb & _). rewrite H2 in He'. inversion He'; subst t'.
   apply load_keys_in in Hw. apply in_keys_dget in Hw. destruct Hw as [i Hi].
-  exists i. split; [rewrite <- load_get; exact Hi|]. unfold lookup. rewrite Hb, Hi. reflexivity.
+  exists i. split; [rewrite <- load_get; exact Hi|]. rewrite lookup_unfold. rewrite Hb, Hi. reflexivity.
 Qed.
 
 Theorem tie_none lines k t q b1 b2 :
@@ -274,7 +274,7 @@ Lemma answers_loaded k t qs :
   answers {| p_k := k; p_pending := None; p_tab := t |} qs = map (fun q => Ans (lookup t q)) qs.
 Proof.
   induction qs as [|q qs IH]; [reflexivity|].
-  cbn [answers map]. unfold get. cbn [p_tab p_pending].
+  cbn [answers map]. rewrite get_unfold. cbn [p_tab p_pending].
   destruct (lookup t q) as [a|]; rewrite IH; reflexivity.
 Qed.
 
@@ -285,7 +285,7 @@ Proof.
   unfold eager_init. rewrite H1. eexists. split; [reflexivity|].
   rewrite answers_loaded.
   destruct qs as [|q qs]; [reflexivity|].
-  cbn [answers map]. unfold get, lazy_init. cbn [p_tab p_pending p_k].
+  cbn [answers map]. rewrite get_unfold. unfold lazy_init. cbn [p_tab p_pending p_k].
   change (lookup empty_tables q) with (@None hit).
   change (load_into empty_tables lines) with (load lines). rewrite H2.
   rewrite answers_loaded. rewrite H3. f_equal. apply map_ext. intros q'. rewrite H3. reflexivity.
@@ -353,7 +353,7 @@ Lemma run_loaded k t ops :
 Proof.
   induction ops as [|o ops IH]; [reflexivity|].
   cbn [run_ops map]. destruct o as [q| |]; cbn [step ans_loaded].
-  - unfold get. cbn [p_tab p_pending]. destruct (lookup t q) as [a|]; rewrite IH; reflexivity.
+  - rewrite get_unfold. cbn [p_tab p_pending]. destruct (lookup t q) as [a|]; rewrite IH; reflexivity.
   - unfold getitem. cbn [p_pending p_tab]. rewrite IH. reflexivity.
   - unfold target_count. cbn [p_tab]. rewrite IH. reflexivity.
 Qed.
@@ -366,7 +366,7 @@ Lemma run_lazy lines k tx ops :
 Proof.
   intros Hx. induction ops as [|o ops IH]; [reflexivity|].
   cbn [run_ops map]. destruct o as [q| |]; cbn [step ans_loaded].
-  - unfold get, lazy_init. cbn [p_tab p_pending p_k].
+  - rewrite get_unfold. unfold lazy_init. cbn [p_tab p_pending p_k].
     change (lookup empty_tables q) with (@None hit).
     change (load_into empty_tables lines) with (load lines). rewrite Hx.
     rewrite run_loaded. reflexivity.
@@ -396,4 +396,50 @@ Lemma run_lookups p qs : run_ops p (map OLookup qs) = answers p qs.
 Proof.
   revert p. induction qs as [|q qs IH]; intros p; [reflexivity|].
   cbn [map run_ops answers step]. destruct (get p q) as [p' a]. rewrite IH. reflexivity.
+Qed.
+
+(* ------------------------------------------------------------------ column-order detection (parse_barcode_file)
+   with the REGENERATED character class: a first column of whitelist barcodes over ACGTN is recognised as the
+   barcode column; a first column of tokens that each contain a digit is recognised as the index column *)
+Lemma alphabet_in_class c : In c alphabet -> In c gen_column_class.
+Proof.
+  rewrite alphabet_unfold. cbn [In]. intros H.
+  repeat (destruct H as [<-|H]; [vm_compute; tauto|]). contradiction.
+Qed.
+
+Lemma barcode_token_wf s : in_alphabet s = true -> is_barcode_token s = true.
+Proof.
+  unfold in_alphabet, is_barcode_token. rewrite !forallb_forall. intros H c Hc. specialize (H c Hc).
+  apply existsb_exists in H. destruct H as [a [Ha E]]. apply Z.eqb_eq in E. subst a.
+  apply existsb_exists. exists c. split; [apply alphabet_in_class; exact Ha|apply Z.eqb_refl].
+Qed.
+
+Lemma digit_token_not_barcode tok : (exists c, In c tok /\ (48 <= c <= 57)%Z) -> is_barcode_token tok = false.
+Proof.
+  intros (c & Hc & Hr). unfold is_barcode_token.
+  destruct (forallb _ tok) eqn:E; [|reflexivity]. exfalso.
+  rewrite forallb_forall in E. specialize (E c Hc). apply existsb_exists in E. destruct E as [a [Ha E]].
+  apply Z.eqb_eq in E. subst a.
+  assert (Hall : forallb (fun a => negb ((48 <=? a)%Z && (a <=? 57)%Z)) gen_column_class = true) by (vm_compute; reflexivity).
+  rewrite forallb_forall in Hall. specialize (Hall c Ha). apply negb_true_iff in Hall.
+  apply andb_false_iff in Hall. destruct Hall as [Hl|Hl]; [apply Z.leb_gt in Hl|apply Z.leb_gt in Hl]; lia.
+Qed.
+
+Theorem parse_barcode_first rows :
+  (exists r, In r rows /\ in_alphabet (fst r) = true) -> parse_rows rows = rows.
+Proof.
+  intros (r & Hr & Hw). unfold parse_rows, index_not_first.
+  replace (existsb _ rows) with true; [reflexivity|]. symmetry. apply existsb_exists.
+  exists r. split; [exact Hr|apply barcode_token_wf; exact Hw].
+Qed.
+
+Theorem parse_index_first rows :
+  (forall r, In r rows -> exists c, In c (fst r) /\ (48 <= c <= 57)%Z) ->
+  parse_rows rows = map (fun r => (snd r, fst r)) rows.
+Proof.
+  intros H. unfold parse_rows, index_not_first.
+  replace (existsb _ rows) with false; [reflexivity|]. symmetry.
+  destruct (existsb _ rows) eqn:E; [|reflexivity]. exfalso.
+  apply existsb_exists in E. destruct E as [r [Hr Hb]].
+  pose proof (digit_token_not_barcode _ (H r Hr)) as Hd. cbv beta in Hb. exact (eq_true_false_abs _ Hb Hd).
 Qed.
